@@ -1,6 +1,6 @@
 """C09 -- forever jobs are never waited for and never outlive the run."""
 
-from . import runrules, shutrules
+from . import runrules, shutrules, common
 
 
 def check(ctx, rep):
@@ -15,3 +15,4 @@ def check(ctx, rep):
     runrules.exit_discipline(ctx, rep, "R09.3", "R09.3", "R09.3", causes=('success',))
     runrules.tidy_shape(ctx, rep, "R09.3t")
     shutrules.cancellation_edges(ctx, rep, "R09.4")
+    common.wrap_typestate(ctx, rep, "R09.5")
